@@ -78,7 +78,7 @@ void CircuitInstruction::add_stats_to(CircuitStats &out, const Circuit *host) co
     }
 
     // Measurement counting.
-    out.num_measurements += count_measurement_results();
+    out.num_measurements = add_saturate(out.num_measurements, count_measurement_results());
 
     switch (gate_type) {
         case GateType::DETECTOR:
@@ -91,7 +91,7 @@ void CircuitInstruction::add_stats_to(CircuitStats &out, const Circuit *host) co
             break;
         case GateType::TICK:
             // Tick counting.
-            out.num_ticks++;
+            out.num_ticks = add_saturate(out.num_ticks, 1);
             break;
         default:
             break;
